@@ -88,6 +88,9 @@ def _(E):
 def _(E):
     arc, C, U, V, k = mk_arc_orth(E)
     E.assume(Or(k == 1, k == -1))            # |U| == |V|: a circular arc
+    E.assume(arc.sweep != 0)
+    E.set(arc, "start", mk_point(E, "s"))
+    E.set(arc, "end", mk_point(E, "e"))
     L = E.call(arc, "length")
     r2 = dot(U, U)
     E.ensure("radius_times_angle", And(L >= 0, L * L == r2 * arc.sweep * arc.sweep))
@@ -111,9 +114,15 @@ def _(E, case):
     # the start parameter goes through atan2(tan): irrelevant to the chain structure, use its frame contract
     E.use_contract("Arc.get_start_t", lambda E2, a, kw: E2.real("start_t"))
     out = E.items(E.call(arc, meth, n))
-    E.ensure("exactly_n_curves", len(out) == n)
     if n == 0:
+        # no curves - except that an arc of zero extent between distinct endpoints (a zero radius) is the straight
+        # line, which is kept as one straight curve
+        straight = len(out) == 1
+        E.ensure("no_curves_or_the_straight_line_of_a_zero_radius_arc",
+                 And(pt_eq(out[0].start, (sx, sy)), pt_eq(out[0].end, (ex, ey)), arc.sweep == 0) if straight
+                 else len(out) == 0)
         return
+    E.ensure("exactly_n_curves", len(out) == n)
     kind = "CubicBezier" if meth == "as_cubic_curves" else "QuadraticBezier"
     E.ensure("all_of_the_requested_kind", And(*[E.clsname(c) == kind for c in out]))
     E.ensure("starts_at_the_arc_start_ends_at_the_arc_end", And(pt_eq(out[0].start, (sx, sy)), pt_eq(out[-1].end, (ex, ey))))
@@ -129,7 +138,8 @@ def _(E, case):
 def _(E, meth):
     arc, C, U, V, k = mk_arc_orth(E)
     E.assume(k > 0)
-    E.set(arc, "start", mk_point(E, "s"))
-    E.set(arc, "end", mk_point(E, "e"))
+    sp = mk_point(E, "s")
+    E.set(arc, "start", sp)
+    E.set(arc, "end", E.new("Point", x=sp.x, y=sp.y))
     E.set(arc, "sweep", 0)
     E.ensure("zero_extent_yields_no_curves", len(E.items(E.call(arc, meth))) == 0)
